@@ -99,6 +99,14 @@ type built struct {
 	regErrs []bool
 }
 
+// selective probes ("s<N>") query the parser only on some tokens, so that consecutive
+// queries can happen under different context stacks of equal depth. The token set is a
+// function of the id: bit 0 let, bit 1 return, bit 2 function of (N mod 7) + 1.
+func selectiveProbeToken(id int, t token.Type) bool {
+	m := id%7 + 1
+	return (m&1 != 0 && t == token.LET) || (m&2 != 0 && t == token.RETURN) || (m&4 != 0 && t == token.FUNCTION)
+}
+
 // buildParser constructs the real parser for a case; interceptors log into events.
 func buildParser(c pcase, viaInstall bool) built {
 	events := &[]event{}
@@ -122,6 +130,17 @@ func buildParser(c pcase, viaInstall bool) built {
 				t := next()
 				if (t.Type == token.ILLEGAL || t.Type == token.IDENT) && t.Literal == lit {
 					t.Type = token.Type(ty)
+				}
+				return t
+			})
+		case strings.HasPrefix(ti, "n"): // n<hexlit>=<hexname>: the type comes from RegisterTokenType(name)
+			kv := strings.Split(ti[1:], "=")
+			lit := unhx(kv[0])
+			ty := lb.RegisterTokenType(unhx(kv[1]))
+			lb.UseTokenInterceptor(func(l *lexer.Lexer, next func() token.Token) token.Token {
+				t := next()
+				if (t.Type == token.ILLEGAL || t.Type == token.IDENT) && t.Literal == lit {
+					t.Type = ty
 				}
 				return t
 			})
@@ -151,6 +170,14 @@ func buildParser(c pcase, viaInstall bool) built {
 					*events = append(*events, event{id: id, kind: 0, tok: p.CurrentToken, ctx: int(p.CurrentContext()), inFn: p.IsInFunction()})
 					return next()
 				})
+			case strings.HasPrefix(si, "s"): // selective probe: asks only at let / return / function
+				id, _ := strconv.Atoi(si[1:])
+				pb.UseStatementInterceptor(func(p *parser.Parser, next func() ast.Statement) ast.Statement {
+					if selectiveProbeToken(id, p.CurrentToken.Type) {
+						*events = append(*events, event{id: id, kind: 0, tok: p.CurrentToken, ctx: int(p.CurrentContext()), inFn: p.IsInFunction()})
+					}
+					return next()
+				})
 			default:
 				die("bad statement interceptor %q", si)
 			}
@@ -169,6 +196,14 @@ func buildParser(c pcase, viaInstall bool) built {
 				id, _ := strconv.Atoi(ei[1:])
 				pb.UseExpressionInterceptor(func(p *parser.Parser, next func() ast.Expression) ast.Expression {
 					*events = append(*events, event{id: id, kind: 1, tok: p.CurrentToken, ctx: int(p.CurrentContext()), inFn: p.IsInFunction()})
+					return next()
+				})
+			case strings.HasPrefix(ei, "s"):
+				id, _ := strconv.Atoi(ei[1:])
+				pb.UseExpressionInterceptor(func(p *parser.Parser, next func() ast.Expression) ast.Expression {
+					if selectiveProbeToken(id, p.CurrentToken.Type) {
+						*events = append(*events, event{id: id, kind: 1, tok: p.CurrentToken, ctx: int(p.CurrentContext()), inFn: p.IsInFunction()})
+					}
 					return next()
 				})
 			default:
@@ -385,6 +420,14 @@ func fmtEvents(evs []event) string {
 // parseObservable runs the real parser and renders everything the model also computes.
 func parseObservable(c pcase, viaInstall bool) (string, *ast.Program, error, built) {
 	b := buildParser(c, viaInstall)
+	// Build is a function of the builder's configuration: in two thirds of the cases the
+	// observed parser is the 2nd or 3rd one built from the same builder, after the
+	// earlier ones have parsed the same source
+	for k := len(c.src) % 3; k > 0; k-- {
+		b.p.ParseProgram()
+		*b.events = (*b.events)[:0]
+		b.p = b.pb.Build(c.src)
+	}
 	prog, err := b.p.ParseProgram()
 	errs := b.p.Errors()
 	es := make([]string, len(errs))
